@@ -68,11 +68,11 @@ def _same_outcome(p, q):
     return p == q
 
 
-@harness("C20", lemma="roundtrip", cubes={"gi": [0, 1, 2, 3, 4, 5, 6], "pw": [[0, 0], [1, 0], [2, 0], [3, 0], [4, 0], [5, 0], [2, 1], [5, 1]]},
+@harness("C20", lemma="roundtrip", cubes={"gi": [0, 1, 2, 3, 4, 5, 6, 7], "pw": [[0, 0], [1, 0], [2, 0], [3, 0], [4, 0], [5, 0], [2, 1], [5, 1]]},
          example=dict(gi=1, pw=[5, 1], a=1, pa=True, b=2, pb=False, d=1, pd=True, x=3, px=True), timeout=300, stubs=("S1",),
          bounds="5 module-level dataset graphs in the explicit dataset(f) form (plain; dispatch + 3 overloads incl. a str alias + callback "
                 "+ effect; nested with pre-set and default options; nocache with Option-with-default dispatch; a with_options/"
-                "with_default_options derivative; a dataset one of whose overloads is built from the dataset itself; a dependency whose effects were disabled through disable_effects() before pickling); pickle protocols 0-5 pickled in this process, protocols 2 and 5 also pickled by a freshly started interpreter; "
+                "with_default_options derivative; a dataset one of whose overloads is built from the dataset itself; a dependency whose effects were disabled through disable_effects() before pickling; a run-once implementation evaluated before pickling); pickle protocols 0-5 pickled in this process, protocols 2 and 5 also pickled by a freshly started interpreter; "
                 "options A, B, D, X present or absent with unbounded int values",
          what="loads(dumps(G)) evaluates to the same value / fails alike and reports the same keys as G for every dictionary, "
               "including overloads registered before pickling; the copy accepts a further registration and evaluates it; live datasets of the unpickling process are undisturbed; an overload registered at run time (outside the defining module) survives the trip into a fresh interpreter")
@@ -82,6 +82,12 @@ def roundtrip(gi: int, pw: list, a: int, pa: bool, b: int, pb: bool, d: int, pd:
     o = _opts(a, pa, b, pb, d, pd, x, px)
     with untraced():
         defs.reset_caches()
+    if gi == 7 and where == 1:
+        return 1                          # a run-once implementation pickled cold elsewhere has nothing memoized to compare
+    if gi == 7 and where == 0:
+        with quiet():
+            outcome(lambda: G(o))          # warm: what the original has memoized travels with the pickle
+    with untraced():
         try:
             blob = pickle.dumps(G, proto) if where == 0 else _pickled_elsewhere(gi, proto)
             C = pickle.loads(blob)
